@@ -21,7 +21,8 @@ theorem pall (S : Schema) (hU : S.unambiguous = true) (n : Nat) : PAll S n := by
         pfe_succ S m hm.k hm.fe, pfd_succ S m hm.k hm.fd, pcust S hU (m + 1) hK, pcustdec S hU (m + 1) hK⟩
 
 theorem unmarshal_eq (S : Schema) (d tag : Nat) (bs : Bytes) :
-    unmarshal S d tag bs = unmarshalFuel S (bs.length + 8) d tag bs := rfl
+    unmarshal S d tag bs =
+      if S.dyns.length ≤ d then .err .other else unmarshalFuel S (decFuel bs.length) d tag bs := rfl
 
 /-- the round trip at the level of `marshal` / `unmarshal`, for any sufficient decoder fuel. -/
 theorem roundtrip_core (S : Schema) (hU : S.unambiguous = true) (d tag : Nat) (v v' : Val) (w : Option Ver)
